@@ -60,3 +60,38 @@ void hp_hwloc_compare_types(void)
   __CPROVER_assert(obj_order_type[obj_type_order[t1]] == t1, "obj_order_type is the inverse table");
   VERIF_CANARY();
 }
+
+/* (C12) hwloc__tma_dup_infos on an info list of 0..DI_N pairs (strings <= 2 chars, allocated > = count): on success the
+ * destination holds private copies (distinct allocations, equal contents) of every pair with the same count / allocated;
+ * the source is untouched.  The job runs with allocations that succeed: hwloc does not handle allocation failure on the dup
+ * path (hwloc_topology_setup_defaults dereferences unchecked malloc results), so those paths are outside the property. */
+#ifndef DI_N
+#define DI_N 2
+#endif
+void hp_hwloc__tma_dup_infos(void)
+{
+  struct hwloc_infos_s src, dst; static char nm[DI_N][3], vl[DI_N][3]; struct hwloc_info_s *arr, shadow[DI_N]; unsigned k; int r;
+  unsigned cnt = nondet_unsigned(), alloc = nondet_unsigned();
+  __CPROVER_assume(cnt <= DI_N && alloc >= cnt && alloc <= DI_N + 1);
+  VERIF_GHOSTS();
+  arr = malloc((DI_N + 1) * sizeof(*arr)); __CPROVER_assume(arr != 0);
+  for (k = 0; k < DI_N; k++) {
+    nm[k][0] = nondet_char(); nm[k][1] = nondet_char(); nm[k][2] = 0; vl[k][0] = nondet_char(); vl[k][1] = nondet_char(); vl[k][2] = 0;
+    arr[k].name = nm[k]; arr[k].value = vl[k]; shadow[k] = arr[k];
+  }
+  src.array = arr; src.count = cnt; src.allocated = alloc;
+  dst.array = (struct hwloc_info_s *)0; dst.count = nondet_unsigned(); dst.allocated = nondet_unsigned();
+  r = hwloc__tma_dup_infos((struct hwloc_tma *)0, &dst, &src);
+  __CPROVER_assert(r == 0 || r == -1, "returns 0 or -1");
+  __CPROVER_assert(src.array == arr && src.count == cnt && src.allocated == alloc, "the source descriptor is untouched");
+  for (k = 0; k < DI_N; k++) __CPROVER_assert(arr[k].name == shadow[k].name && arr[k].value == shadow[k].value, "the source pairs are untouched");
+  if (r == 0) {
+    __CPROVER_assert(dst.count == cnt && dst.allocated == alloc && dst.array != 0 && dst.array != arr, "duplicate: same count / allocated, a private array");
+    for (k = 0; k < DI_N; k++) if (k < cnt) {
+      __CPROVER_assert(dst.array[k].name != nm[k] && dst.array[k].value != vl[k], "duplicate: strings are not shared with the source");
+      __CPROVER_assert(dst.array[k].name[0] == nm[k][0] && (!nm[k][0] || (dst.array[k].name[1] == nm[k][1] && (!nm[k][1] || dst.array[k].name[2] == 0))), "duplicate: same name text");
+      __CPROVER_assert(dst.array[k].value[0] == vl[k][0] && (!vl[k][0] || (dst.array[k].value[1] == vl[k][1] && (!vl[k][1] || dst.array[k].value[2] == 0))), "duplicate: same value text");
+    }
+  }
+  VERIF_CANARY();
+}
